@@ -34,6 +34,7 @@ import (
 	"github.com/fatedier/frp/pkg/transport"
 	netpkg "github.com/fatedier/frp/pkg/util/net"
 	"github.com/fatedier/frp/pkg/util/util"
+	"github.com/fatedier/frp/pkg/util/verifhook"
 	"github.com/fatedier/frp/pkg/util/version"
 	"github.com/fatedier/frp/pkg/util/wait"
 	"github.com/fatedier/frp/pkg/util/xlog"
@@ -337,8 +338,10 @@ func (ctl *Control) worker() {
 	for workConn := range ctl.workConnCh {
 		workConn.Close()
 	}
+	verifhook.At("ctl.teardown.pool_closed", ctl.loginMsg.RunID)
 
 	for _, pxy := range ctl.proxies {
+		verifhook.At("ctl.teardown.proxy", pxy.GetName())
 		pxy.Close()
 		ctl.pxyManager.Del(pxy.GetName())
 		metrics.Server.CloseProxy(pxy.GetName(), pxy.GetConfigurer().GetBaseConfig().Type)
@@ -360,6 +363,7 @@ func (ctl *Control) worker() {
 
 	metrics.Server.CloseClient()
 	xl.Infof("client exit success")
+	verifhook.At("ctl.teardown.before_done", ctl.loginMsg.RunID)
 	close(ctl.doneCh)
 }
 
@@ -513,6 +517,7 @@ func (ctl *Control) RegisterProxy(pxyMsg *msg.NewProxy) (remoteAddr string, err 
 		return
 	}
 
+	verifhook.At("ctl.regproxy.after_exist", pxyMsg.ProxyName)
 	remoteAddr, err = pxy.Run()
 	if err != nil {
 		return
@@ -523,6 +528,7 @@ func (ctl *Control) RegisterProxy(pxyMsg *msg.NewProxy) (remoteAddr string, err 
 		}
 	}()
 
+	verifhook.At("ctl.regproxy.after_run", pxyMsg.ProxyName)
 	err = ctl.pxyManager.Add(pxyMsg.ProxyName, pxy)
 	if err != nil {
 		return
